@@ -75,6 +75,26 @@ def run(chk, tier, seed):
                 cells[p] = 0
         lines.append("%s %s" % (enc, mkflux.cells_to_bytes_lsb(cells).hex()))
         meta.append(("raw", enc, dict(kind=kind, i=i)))
+    # every single-cell flip of a clean three-sector track (quick: every 8th cell), and seeded pairs of flips: the unit of damage
+    # here is one flux cell, not a whole field as in the model's cases
+    for enc in ("FM", "MFM"):
+        secs = {r: mkdisc.stamp(fc.SALT, r) for r in range(3)}
+        t = mkflux.build_track(enc, 1, 0, secs)
+        base = list(t.cells)
+        step = 8 if quick else 1
+        for p_ in range(0, len(base), step):
+            cells = list(base)
+            cells[p_] ^= 1
+            lines.append("%s %s" % (enc, mkflux.cells_to_bytes_lsb(cells).hex()))
+            meta.append(("raw", enc, dict(kind=10, i=p_)))
+        for j in range(300 if quick else 6000):
+            cells = list(base)
+            a = rnd.randrange(len(base))
+            b = (a + rnd.choice([1, 2, 3, 8, 15, 16, 17, 32, rnd.randrange(len(base))])) % len(base)
+            cells[a] ^= 1
+            cells[b] ^= 1
+            lines.append("%s %s" % (enc, mkflux.cells_to_bytes_lsb(cells).hex()))
+            meta.append(("raw", enc, dict(kind=11, i=a * 100000 + b)))
     hook_trace = os.path.join(common.CACHE, "scratch", "c06-hooks-%d.ndjson" % os.getpid())
     if os.path.exists(hook_trace):
         os.unlink(hook_trace)
@@ -93,7 +113,7 @@ def run(chk, tier, seed):
             chk.case((enc, tuple(c["faults"]), c["cut"], c["partial"]), nontrivial=(c["cut"] < 6 or any(f != "ok" for f in c["faults"])))
         else:
             events.append(dict(e="raw", enc=enc, kind=c["kind"], i=c["i"], yields=ys, clean=clean))
-            chk.case((enc, "raw", c["i"]))
+            chk.case((enc, "raw", c["kind"], c["i"]))
     chk.sample(next(e for e in events if e["e"] == "decode" and e["faults"][1] == "nomark"))
     chk.sample(events[-1])
     # ---- image level: damaged images read back through dfs
